@@ -6,6 +6,7 @@ import Driver.C05
 import Driver.C03
 import Driver.C07
 import Driver.C08
+import Driver.C18
 open Driver
 
 def handle (line : String) : String :=
@@ -17,6 +18,7 @@ def handle (line : String) : String :=
   | "c03" :: args => c03 args
   | "c07" :: args => c07 args
   | "c08v" :: args => c08v args
+  | "c18v" :: args => c18v args
   | "c10" :: args => c10 args
   | "c12" :: args => c12 args
   | "c14" :: args => c10 args
